@@ -196,6 +196,13 @@ def gen_random(rng):
                                                                       "merge_rest", ""])
         if rng.random() < 0.3:
             sprinkle_unicode(rng, spec)
+        if rng.random() < 0.1:
+            # "no text" given as an empty list / empty string / list of one empty string
+            for key in ("title", "subline", "footnote", "source", "page_header", "page_footer"):
+                if rng.random() < 0.3:
+                    spec[key] = {"text": rng.choice([[], "", [""]])}
+                    if key in ("footnote", "source") and rng.random() < 0.5:
+                        spec[key]["as_table"] = rng.random() < 0.5
         return spec
     if k < 0.86:
         return G.gen_multi_spec(rng, half_points=rng.random() < 0.3,
